@@ -82,11 +82,14 @@ pub struct MDoc {
 #[derive(Clone, Debug, PartialEq)]
 pub enum MSlot {
     Node(Mid),
-    Vec(Vec<Mid>),
+    /// snapshot of nodes (iterator, query result); the flags say which handles are merged text nodes
+    Vec(Vec<Mid>, Vec<bool>),
     List(Mid),
     Map(Mid),
     Ctx(Vec<(String, String)>),
-    /// a node the model does not track (defaulted attribute, namespace node, merged text run)
+    /// a merged text node of the text-expanded view: the pieces it stood for when the handle was taken
+    Run(Vec<Mid>),
+    /// a node the model does not track (defaulted attribute, namespace node)
     Opaque,
 }
 
@@ -152,6 +155,10 @@ pub struct Model {
     pub docs: Vec<MDoc>,
     pub slots: Vec<Option<MSlot>>,
     pub by_key: BTreeMap<Key, Mid>,
+    /// number of successful mutations so far; merged text handles are snapshots of their pieces and are
+    /// only judged while nothing has changed since they were taken
+    pub gen: u64,
+    pub born: BTreeMap<S, u64>,
 }
 
 pub fn local_of(q: &str) -> &str {
@@ -212,7 +219,7 @@ fn allowed_child(parent: Kind, child: Kind) -> bool {
 
 impl Model {
     pub fn new() -> Model {
-        Model { nodes: vec![], docs: vec![], slots: vec![], by_key: BTreeMap::new() }
+        Model { nodes: vec![], docs: vec![], slots: vec![], by_key: BTreeMap::new(), gen: 0, born: BTreeMap::new() }
     }
 
     pub fn add(&mut self, kind: Kind, name: &str, data: &str, doc: usize) -> Mid {
@@ -266,6 +273,60 @@ impl Model {
         match self.slot(s) {
             Some(MSlot::Node(m)) => Some(*m),
             _ => None,
+        }
+    }
+
+    /// the node an argument slot stands for as ref_child: a node, or the first piece of a merged run
+    pub fn arg_head(&self, s: S) -> Option<Mid> {
+        match self.slot(s) {
+            Some(MSlot::Node(m)) => Some(*m),
+            Some(MSlot::Run(r)) => r.first().cloned(),
+            _ => None,
+        }
+    }
+
+    fn is_run(&self, s: S) -> Option<Vec<Mid>> {
+        match self.slot(s) {
+            Some(MSlot::Run(r)) => Some(r.clone()),
+            _ => None,
+        }
+    }
+
+    /// a merged text handle taken before the last successful mutation: its snapshot may differ from the view
+    pub fn stale(&self, s: S) -> bool {
+        matches!(self.slot(s), Some(MSlot::Run(_))) && self.born.get(&s).cloned() != Some(self.gen)
+    }
+
+    fn step_slots(step: &Step) -> Vec<S> {
+        match &step.op {
+            Op::InsertBefore { recv, new, refc, .. } => {
+                let mut v = vec![*recv, *new];
+                if let Some(r) = refc {
+                    v.push(*r);
+                }
+                v
+            }
+            Op::AppendChild { recv, new, .. } => vec![*recv, *new],
+            Op::ReplaceChild { recv, new, old, .. } => vec![*recv, *new, *old],
+            Op::RemoveChild { recv, old, .. } => vec![*recv, *old],
+            Op::Substring { node, .. } | Op::Nav { node, .. } | Op::Touch { node } => vec![*node],
+            _ => vec![],
+        }
+    }
+
+    /// a merged text node offered as new child: this DOM cannot move it (any refusal, no effect)
+    fn plan_run_as_new() -> Plan {
+        Plan { ok: false, errs: vec![ErrClass::NotSupported, ErrClass::Hierarchy, ErrClass::WrongDoc, ErrClass::NotFound], any_err: true, illegal: true, ..Default::default() }
+    }
+
+    /// remove_child / replace_child given a merged text node: all of its pieces must be children
+    fn plan_run_as_old(&self, recv: Mid, run: &[Mid]) -> Plan {
+        let r = &self.nodes[recv];
+        let same_doc = run.iter().all(|p| self.nodes[*p].doc == r.doc);
+        if r.kind == Kind::Element && same_doc && !run.is_empty() && run.iter().all(|p| self.nodes[*p].parent == Some(recv)) {
+            Plan::ok()
+        } else {
+            Plan::fail(vec![ErrClass::NotFound, ErrClass::Hierarchy, ErrClass::WrongDoc])
         }
     }
 
@@ -388,6 +449,22 @@ impl Model {
     /// does a re-parse of the serialisation have the same nodes as the live document
     pub fn text_normal(&self, doc: usize) -> bool {
         let mut stack = vec![self.docs[doc].root];
+        if self.docs[doc].expanded {
+            // merged view: a run with no characters at all disappears on re-parse
+            while let Some(m) = stack.pop() {
+                for item in self.view(m) {
+                    let k = &self.nodes[item[0]];
+                    if k.kind.is_textlike() && self.merges(m) {
+                        if self.run_data(&item).is_empty() {
+                            return false;
+                        }
+                    } else if k.kind == Kind::Element {
+                        stack.push(item[0]);
+                    }
+                }
+            }
+            return true;
+        }
         while let Some(m) = stack.pop() {
             let n = &self.nodes[m];
             let mut prev_text = false;
@@ -427,15 +504,78 @@ impl Model {
                 MSlot::Node(m) | MSlot::List(m) | MSlot::Map(m) => {
                     h.insert(*m);
                 }
-                MSlot::Vec(v) => {
-                    for m in v {
-                        h.insert(*m);
+                // a merged text handle (Run) keeps its pieces alive in the implementation, but nothing
+                // can be observed through it once the pieces are detached: it is not counted as a holder
+                MSlot::Vec(v, merged) => {
+                    for (i, m) in v.iter().enumerate() {
+                        if !merged.get(i).cloned().unwrap_or(false) {
+                            h.insert(*m);
+                        }
                     }
                 }
                 _ => {}
             }
         }
         h
+    }
+
+    // ------------------------------------------------------------------------------------------
+    // the text-expanded view: under an element, adjacent text / CDATA / reference items are one node
+
+    pub fn merges(&self, m: Mid) -> bool {
+        let n = &self.nodes[m];
+        n.kind == Kind::Element && self.docs[n.doc].expanded
+    }
+
+    /// children as the DOM presents them: each item is a single node or a run of text-like pieces
+    pub fn view(&self, m: Mid) -> Vec<Vec<Mid>> {
+        let n = &self.nodes[m];
+        if !self.merges(m) {
+            return n.children.iter().map(|c| vec![*c]).collect();
+        }
+        let mut out: Vec<Vec<Mid>> = vec![];
+        let mut run: Vec<Mid> = vec![];
+        for c in &n.children {
+            if self.nodes[*c].kind.is_textlike() {
+                run.push(*c);
+            } else {
+                if !run.is_empty() {
+                    out.push(std::mem::take(&mut run));
+                }
+                out.push(vec![*c]);
+            }
+        }
+        if !run.is_empty() {
+            out.push(run);
+        }
+        out
+    }
+
+    /// the node that stands for each child in the view (first piece of a run)
+    pub fn view_heads(&self, m: Mid) -> Vec<Mid> {
+        self.view(m).iter().map(|v| v[0]).collect()
+    }
+
+    /// the run a text-like node belongs to in the view of its parent (None if the parent does not merge)
+    pub fn run_of(&self, m: Mid) -> Option<Vec<Mid>> {
+        let n = &self.nodes[m];
+        let p = n.parent?;
+        if !self.merges(p) || !n.kind.is_textlike() {
+            return None;
+        }
+        self.view(p).into_iter().find(|r| r.contains(&m))
+    }
+
+    pub fn run_data(&self, run: &[Mid]) -> String {
+        run.iter().map(|m| self.nodes[*m].data.clone()).collect::<Vec<_>>().join("")
+    }
+
+    /// is this handle (taken earlier) still exactly one run of its parent's view?
+    pub fn run_intact(&self, run: &[Mid]) -> bool {
+        match run.first().and_then(|h| self.run_of(*h)) {
+            Some(r) => r == run,
+            None => false,
+        }
     }
 
     /// Rust ownership: a detached node lives only while a handle holds it or one of its ancestors.
@@ -517,13 +657,32 @@ impl Model {
             }
             attrs.sort();
             let parent = if n.kind == Kind::Attr { None } else { n.parent.and_then(|p| self.key(p)) };
+            // merged-text view: a run is presented as one text node carrying the id of its first piece
+            if let Some(run) = self.run_of(m) {
+                if run[0] != m {
+                    continue;
+                }
+                let e = Expect {
+                    key,
+                    kind: OKind::Text,
+                    name: "#text".into(),
+                    value: Some(self.run_data(&run)),
+                    parent,
+                    children: vec![],
+                    attrs: vec![],
+                    attached: self.is_attached(m),
+                    value_free: run.iter().any(|r| self.nodes[*r].value_free || self.nodes[*r].undeclared),
+                };
+                out.insert(key, e);
+                continue;
+            }
             let e = Expect {
                 key,
                 kind: n.kind.okind(),
                 name: self.node_name(m),
                 value: self.node_value(m),
                 parent,
-                children: n.children.iter().filter_map(|c| self.key(*c)).collect(),
+                children: self.view_heads(m).iter().filter_map(|c| self.key(*c)).collect(),
                 attrs,
                 attached: self.is_attached(m),
                 value_free: n.value_free || self.subtree_value_free(m),
@@ -751,15 +910,30 @@ impl Model {
     }
 
     pub fn plan(&self, step: &Step) -> Plan {
+        if Model::step_slots(step).iter().any(|s| self.stale(*s)) {
+            return Plan::skip();
+        }
+        let p = self.plan_inner(step);
+        // DOM-silent corners whose outcome is adopted from the child list: not modelled under the merged view
+        if p.adopt.iter().any(|m| self.merges(*m)) && step.is_mutator() && !matches!(step.op, Op::SetAttribute { .. }) {
+            return Plan::skip();
+        }
+        p
+    }
+
+    fn plan_inner(&self, step: &Step) -> Plan {
         let ns = |s: &S| self.node_slot(*s);
         match &step.op {
             Op::InsertBefore { recv, new, refc, .. } => {
+                if self.is_run(*new).is_some() && ns(recv).is_some() {
+                    return Model::plan_run_as_new();
+                }
                 let (r, n) = match (ns(recv), ns(new)) {
                     (Some(r), Some(n)) => (r, n),
                     _ => return Plan::skip(),
                 };
                 let rc = match refc {
-                    Some(s) => match ns(s) {
+                    Some(s) => match self.arg_head(*s) {
                         Some(m) => Some(m),
                         None => return Plan::skip(),
                     },
@@ -767,18 +941,50 @@ impl Model {
                 };
                 self.plan_insert(r, n, rc)
             }
-            Op::AppendChild { recv, new, .. } => match (ns(recv), ns(new)) {
-                (Some(r), Some(n)) => self.plan_insert(r, n, None),
-                _ => Plan::skip(),
-            },
-            Op::ReplaceChild { recv, new, old, .. } => match (ns(recv), ns(new), ns(old)) {
-                (Some(r), Some(n), Some(o)) => self.plan_replace(r, n, o),
-                _ => Plan::skip(),
-            },
-            Op::RemoveChild { recv, old, .. } => match (ns(recv), ns(old)) {
-                (Some(r), Some(o)) => self.plan_remove(r, o),
-                _ => Plan::skip(),
-            },
+            Op::AppendChild { recv, new, .. } => {
+                if self.is_run(*new).is_some() && ns(recv).is_some() {
+                    return Model::plan_run_as_new();
+                }
+                match (ns(recv), ns(new)) {
+                    (Some(r), Some(n)) => self.plan_insert(r, n, None),
+                    _ => Plan::skip(),
+                }
+            }
+            Op::ReplaceChild { recv, new, old, .. } => {
+                if self.is_run(*new).is_some() && ns(recv).is_some() {
+                    return Model::plan_run_as_new();
+                }
+                if let (Some(r), Some(n), Some(run)) = (ns(recv), ns(new), self.is_run(*old)) {
+                    let p = self.plan_run_as_old(r, &run);
+                    if !p.ok {
+                        let mut q = self.plan_insert(r, n, None);
+                        q.ok = false;
+                        q.illegal = true;
+                        q.errs.extend(p.errs);
+                        q.adopt.clear();
+                        return q;
+                    }
+                    let q = self.plan_insert(r, n, Some(run[0]));
+                    if !q.adopt.is_empty() || q.no_effect {
+                        // combinations with DOM-silent corners: not modelled
+                        return Plan::skip();
+                    }
+                    return q;
+                }
+                match (ns(recv), ns(new), ns(old)) {
+                    (Some(r), Some(n), Some(o)) => self.plan_replace(r, n, o),
+                    _ => Plan::skip(),
+                }
+            }
+            Op::RemoveChild { recv, old, .. } => {
+                if let (Some(r), Some(run)) = (ns(recv), self.is_run(*old)) {
+                    return self.plan_run_as_old(r, &run);
+                }
+                match (ns(recv), ns(old)) {
+                    (Some(r), Some(o)) => self.plan_remove(r, o),
+                    _ => Plan::skip(),
+                }
+            }
             Op::SetAttribute { el, name, value } => {
                 let e = match ns(el) {
                     Some(e) if self.nodes[e].kind == Kind::Element => e,
@@ -896,6 +1102,14 @@ impl Model {
             Op::InsertData { node, off, data } => self.plan_data(ns(node), *off, Some(data), &step.op),
             Op::DeleteData { node, off, .. } => self.plan_data(ns(node), *off, None, &step.op),
             Op::ReplaceData { node, off, data, .. } => self.plan_data(ns(node), *off, Some(data), &step.op),
+            Op::Substring { node, off, .. } if self.is_run(*node).is_some() => {
+                let run = self.is_run(*node).unwrap();
+                if *off > chars_len(&self.run_data(&run)) {
+                    Plan::fail(vec![ErrClass::IndexSize])
+                } else {
+                    Plan::ok()
+                }
+            }
             Op::Substring { node, off, .. } => match ns(node) {
                 Some(m) if self.nodes[m].kind.is_chardata() => {
                     if *off > chars_len(&self.nodes[m].data) {
@@ -1033,6 +1247,11 @@ impl Model {
             None => return,
         };
         let doc = self.nodes[m].doc;
+        if self.merges(m) && self.nodes[m].rid.is_some() && !self.nodes[m].children.is_empty() {
+            // the merged view does not show the pieces: only the attributes are adopted
+            self.adopt_attrs(m, &o, post, doc);
+            return;
+        }
         // children
         let mut kids = vec![];
         for ck in &o.children {
@@ -1068,6 +1287,10 @@ impl Model {
                 }
             }
         }
+        self.adopt_attrs(m, &o, post, doc);
+    }
+
+    fn adopt_attrs(&mut self, m: Mid, o: &NodeObs, post: &ObsMap, doc: usize) {
         // attributes
         if self.nodes[m].kind == Kind::Element {
             let mut attrs = vec![];
